@@ -152,6 +152,28 @@ CLAIMS = {
 }
 NOT_YET = "not claimed"
 
+# properties whose numeric / control source functions are ALSO translated to Lean on every run (harness/translate) and
+# tied to the model by theorems Props/CxxTie.lean (`translated source = model`, then the main theorems restated for the source)
+TIE = {
+ "C02": "utils.logsumexp, utils.effective_sample_size, Samples.compute_weights (all seven stored fields), scaled_weights, the acceptance rule of rejection_sample",
+ "C05": "SMCSamples.log_p_t and the statements of SMCSampler.log_prob / MCMCSampler.log_prob that form the kernel target",
+ "C06": "SMCSampler.determine_beta (fixed rule, bisection loop, fallback step, adaptive minimum step, clamps), current_target_efficiency, the loop's exit test and the min_step initialisation of SMCSampler.sample",
+ "C07": "SMCSampler.determine_beta / current_target_efficiency and the efficiency curve effective_sample_size(log_weights(b))/N",
+ "C08": "SMCSamples.log_evidence_ratio, log_evidence_ratio_variance and the two statements that sum the recorded series after the loop",
+ "C09": "SMCSamples.log_weights and the statements of SMCSamples.resample that compute the probability vector handed to rng.choice",
+ "C11": "the statements of SMCSampler.sample that decide whether a resumed call re-enters the loop",
+ "C12": "the cadence rule inside maybe_checkpoint of SMCSampler.sample",
+}
+for pid, what in TIE.items():
+    c = CLAIMS[pid]
+    c["text"] += (" SOURCE TIE BY TRANSLATION: " + what + " are re-translated from /repo's working tree into Lean on every run "
+                  "(harness/translate/py2lean.py -> lean/AspireModel/Gen) and Props/" + pid + "Tie.lean proves that the translated source equals the model "
+                  "and restates the main theorems for the translated source; if the source changes so that a tie theorem no longer checks, the check "
+                  "reports the broken obligation (with a failing input when the search finds one).")
+    c["note"] += (" The translator's reading of the Python/array-API subset (element-wise broadcasting, reductions, len, round/min/max, while-with-fuel) is trusted "
+                  "and cross-validated by the behavioural correspondence; logging and NaN guards that raise are not part of the translated value.")
+    c["technique"] = c["technique"].replace("Lean 4 proof", "Lean 4 proof + source-to-Lean translation with tie theorems (translated source = model)", 1)
+
 props = [json.loads(l) for l in open('/verif/properties.jsonl')]
 checks = []
 na = []
@@ -177,5 +199,9 @@ m["checks"] = checks
 m["not_applicable"] = na
 for e in m["engines"]:
     e["serves_properties"] = sorted(CLAIMS)
+m["engines"] = [e for e in m["engines"] if e["name"] != "source-translator"] + [{
+    "name": "source-translator", "path": "harness/translate/", "serves_properties": sorted(TIE),
+    "kind_free_text": "Python (array-API numeric subset) -> Lean 4 translator; regenerates lean/AspireModel/Gen/*.lean from /repo's working tree on every run; "
+                      "tie theorems in lean/AspireModel/Props/*Tie.lean; changed sources are recompiled in a scratch directory"}]
 json.dump(m, open('/verif/MANIFEST.json', 'w'), indent=1)
 print("claimed:", sorted(CLAIMS))
